@@ -114,6 +114,9 @@ def gen_cases(tier: str, seed: int) -> List[Dict]:
         for src, restriction in SOURCES.items():
             pool = pools[src]
             always = [c for c in pool if "-unusedlead" in c.get("id", "")] if src == "c03" else []
+            if src == "c06":
+                mixed = [c for c in pool if c.get("id", "").endswith("-mixed") and not c.get("options")]
+                always = rng.sample(mixed, min(4 if quick else 2, len(mixed)))
             for c in always + rng.sample(pool, min(per, len(pool))):
                 c = dict(c)
                 opt = dict(cfg)
